@@ -155,7 +155,7 @@ theorem insertValue_after_mem {s : DSt} {A : Nat → List Nat} {l a : Nat} (v : 
     (h : GInv s A) (hl : l < s.nl) (hr : Ring s.next s.prev (l :: A l)) (ha : a ∈ l :: A l) :
     ∃ s', s.insertValue l v (some a) = some (s', s.fresh) ∧
       GInv s' (upd A l (insAfterC l (A l) a s.fresh)) ∧
-      s'.fresh = s.fresh + 1 ∧ s'.nl = s.nl ∧ s'.val.get s.fresh = v := by
+      s'.fresh = s.fresh + 1 ∧ s'.nl = s.nl ∧ s'.val = s.val.set s.fresh v := by
   obtain ⟨g1, g2, g3, g4, g5, g6, g7, _⟩ := alloc_spec v h
   have hr' : Ring (s.alloc v).1.next (s.alloc v).1.prev (l :: A l) := by rw [g4, g5]; exact hr
   obtain ⟨s', r1, r2, r3, r4, r5⟩ := insert_after_mem g1 (g6 ▸ hl) hr' ha g2
@@ -163,7 +163,7 @@ theorem insertValue_after_mem {s : DSt} {A : Nat → List Nat} {l a : Nat} (v : 
   · simp only [DSt.insertValue]
     have : s.alloc v = ((s.alloc v).1, s.fresh) := by rw [← g3]
     rw [this]; simp only [r1, Option.bind_eq_bind, Option.bind_some]; rfl
-  · rw [r3]; simp [DSt.alloc, IM.get_set]
+  · rw [r3]; rfl
 
 
 /-! ### pure list facts about the ring `l :: L` -/
@@ -227,21 +227,23 @@ theorem getLast_mem_ring (l : Nat) (p : List Nat) : ∃ z, (l :: p).getLast? = s
 
 theorem pushFront_spec {s : DSt} {A : Nat → List Nat} {l : Nat} (v : Int) (h : GInv s A) (hl : l < s.nl) :
     ∃ s', s.pushFront l v = some (s', s.fresh) ∧ GInv s' (upd A l (s.fresh :: A l)) ∧
-      s'.fresh = s.fresh + 1 ∧ s'.nl = s.nl ∧ s'.val.get s.fresh = v := by
-  obtain ⟨g1, g2, _, g4, g5, _⟩ := lazyInit_spec h hl
+      s'.fresh = s.fresh + 1 ∧ s'.nl = s.nl ∧ s'.val = s.val.set s.fresh v := by
+  obtain ⟨g1, g2, g3, g4, g5, _⟩ := lazyInit_spec h hl
   obtain ⟨s', r1, r2, r3, r4, r5⟩ := insertValue_after_mem (a := l) v g1 (g5 ▸ hl) g2 (by simp)
   rw [g4] at r1 r2 r3 r5
+  rw [g3] at r5
   rw [insAfterC_root] at r2
   exact ⟨s', by simpa [DSt.pushFront] using r1, r2, r3, by rw [r4, g5], r5⟩
 
 theorem pushBack_spec {s : DSt} {A : Nat → List Nat} {l : Nat} (v : Int) (h : GInv s A) (hl : l < s.nl) :
     ∃ s', s.pushBack l v = some (s', s.fresh) ∧ GInv s' (upd A l (A l ++ [s.fresh])) ∧
-      s'.fresh = s.fresh + 1 ∧ s'.nl = s.nl ∧ s'.val.get s.fresh = v := by
-  obtain ⟨g1, g2, _, g4, g5, _⟩ := lazyInit_spec h hl
+      s'.fresh = s.fresh + 1 ∧ s'.nl = s.nl ∧ s'.val = s.val.set s.fresh v := by
+  obtain ⟨g1, g2, g3, g4, g5, _⟩ := lazyInit_spec h hl
   obtain ⟨z, hz, hzm⟩ := getLast_mem_ring l (A l)
   have hat : (s.lazyInit l).prev.get l = some z := by rw [ring_prev_root g2, hz]
   obtain ⟨s', r1, r2, r3, r4, r5⟩ := insertValue_after_mem (a := z) v g1 (g5 ▸ hl) g2 hzm
   rw [g4] at r1 r2 r3 r5
+  rw [g3] at r5
   rw [insAfterC_last _ (h.lists l hl).nodup hz] at r2
   exact ⟨s', by simpa [DSt.pushBack, hat] using r1, r2, r3, by rw [r4, g5], r5⟩
 
@@ -250,7 +252,7 @@ theorem insertAfter_spec {s : DSt} {A : Nat → List Nat} {l : Nat} (v : Int) (m
     (mark ∉ A l → s.insertAfter l v mark = some (s, none)) ∧
     (mark ∈ A l → ∃ s', s.insertAfter l v mark = some (s', some s.fresh) ∧
       GInv s' (upd A l (insAfter s.fresh mark (A l))) ∧
-      s'.fresh = s.fresh + 1 ∧ s'.nl = s.nl ∧ s'.val.get s.fresh = v) := by
+      s'.fresh = s.fresh + 1 ∧ s'.nl = s.nl ∧ s'.val = s.val.set s.fresh v) := by
   have hown := (h.lists l hl).owner mark
   refine ⟨fun hm => ?_, fun hm => ?_⟩
   · have : s.list.get mark ≠ some l := fun hh => hm (hown.1 hh)
@@ -267,7 +269,7 @@ theorem insertBefore_spec {s : DSt} {A : Nat → List Nat} {l : Nat} (v : Int) (
     (mark ∉ A l → s.insertBefore l v mark = some (s, none)) ∧
     (mark ∈ A l → ∃ s', s.insertBefore l v mark = some (s', some s.fresh) ∧
       GInv s' (upd A l (insBefore s.fresh mark (A l))) ∧
-      s'.fresh = s.fresh + 1 ∧ s'.nl = s.nl ∧ s'.val.get s.fresh = v) := by
+      s'.fresh = s.fresh + 1 ∧ s'.nl = s.nl ∧ s'.val = s.val.set s.fresh v) := by
   have hown := (h.lists l hl).owner mark
   refine ⟨fun hm => ?_, fun hm => ?_⟩
   · have : s.list.get mark ≠ some l := fun hh => hm (hown.1 hh)
